@@ -49,7 +49,7 @@ const (
 
 func (c12) ID() string { return "C12" }
 func (c12) Rule() string {
-	return "restoration, systematic: every non-ambiguous location of gen.Universe(6,2) as the single labelled feature (gene; every 7th source) x every set of 1..3 interior cuts of a 6-residue host, and every ordered pair of non-ambiguous locations of gen.Universe(4|5,2) as a two-feature table with unique labels x every set of 1..3 cuts; hosts alternate BasicSequence / seqio.GenBank; restoration, seeded: hosts of 10..60 residues, tables of 1..8 uniquely labelled features (half of the tables only forward ranges (each end partial with p=.3), points and sites; the other half also complements, joins, orders, nested complements), 1..3 cuts drawn inside feature parts with p=.7, never on a between-site; plus the project's phiX174 sample table (seqio/testdata/NC_001422.gb) cut at 2 positions. The pieces are gts.Slice'd, gts.Concat'ed in order and the table is gts.Repair'ed; cases in which a between-site lies on a cut or an end of the sequence (Slice keeps it in no piece) or whose fragments do not cover exactly the residues of their original (Slice/Concat deviations owned by C03/C10) are skipped and counted. safety, systematic: every location of gen.Universe(4,2) alone and every ordered pair of them as one (key,qualifiers) class; every triple of forward leaves (points, sites, ranges with all 4 partial combinations) of a 4-residue universe as one class; every pair of such leaves as one source class; every pair of such leaves in two classes that differ in key only / in a qualifier value only / only in how qualifier values split on a blank; safety, seeded: tables of 1..8 features in classes of 1..3 members over 10..60 residues: chains of 2..3 consecutive fragments whose junctions carry both, one or no partial marker or leave a gap, forward / complemented / mixed; random ranges; ranges with touching points and sites; gen.RandLoc members (joins, orders, complements, overlaps, ambiguous spans); half of the tables only forward ranges; a third of the tables additionally hold a properly marked abutting pair spread over two different classes; table order shuffled or sorted; every fragment table of the restoration workload is judged by the safety clauses too. Oracle: see the type comment; per class the multiset of printed locations may change only by replacing >=2 members that form a chain (each junction: same strand, the '>' high end of a range meets the '<' low start of a range at one coordinate; for source any abutting residue-bearing ends) by one feature covering exactly their residues; a second Repair that still changes something is judged the same way and must change nothing. Known findings are attributed per class by deviation models composed fewest-first (join members count as their elements; touching points/sites vanish; complemented members come back as fewer complement(join(...)) features over the same residues; classes that %s:%v conflates are one class) and for restoration per feature (multi-part original: residues kept; complemented range: exactly complement(join(last fragment,...,first fragment))); panics only at gts.Repair with slice-bounds/index and a join member in the table. non-trivial: restoration: a cut falls strictly inside a part of a feature; safety: some class has >=2 members; distinct: canonical case text. The table handed to Repair must read the same after the call. A bare feature (no qualifier) is the first feature of a fifth of the tables."
+	return "restoration, systematic: every non-ambiguous location of gen.Universe(6,2) as the single labelled feature (gene; every 7th source) x every set of 1..3 interior cuts of a 6-residue host, and every ordered pair of non-ambiguous locations of gen.Universe(4|5,2) as a two-feature table with unique labels x every set of 1..3 cuts; hosts alternate BasicSequence / seqio.GenBank; restoration, seeded: hosts of 10..60 residues, tables of 1..8 uniquely labelled features (half of the tables only forward ranges (each end partial with p=.3), points and sites; the other half also complements, joins, orders, nested complements), 1..3 cuts drawn inside feature parts with p=.7, never on a between-site; plus the project's phiX174 sample table (seqio/testdata/NC_001422.gb) cut at 2 positions. The pieces are gts.Slice'd, gts.Concat'ed in order and the table is gts.Repair'ed; cases in which a between-site lies on a cut or an end of the sequence (Slice keeps it in no piece) or whose fragments do not cover exactly the residues of their original (Slice/Concat deviations owned by C03/C10) are skipped and counted. safety, systematic: every location of gen.Universe(4,2) alone and every ordered pair of them as one (key,qualifiers) class; every triple of forward leaves (points, sites, ranges with all 4 partial combinations) of a 4-residue universe as one class; every pair of such leaves as one source class; every pair of such leaves in two classes that differ in key only / in a qualifier value only / only in how qualifier values split on a blank; safety, seeded: tables of 1..8 features in classes of 1..3 members over 10..60 residues: chains of 2..3 consecutive fragments whose junctions carry both, one or no partial marker or leave a gap, forward / complemented / mixed; random ranges; ranges with touching points and sites; gen.RandLoc members (joins, orders, complements, overlaps, ambiguous spans); half of the tables only forward ranges; a third of the tables additionally hold a properly marked abutting pair spread over two different classes; table order shuffled or sorted; every fragment table of the restoration workload is judged by the safety clauses too. Oracle: see the type comment; per class the multiset of printed locations may change only by replacing >=2 members that form a chain (each junction: same strand, the '>' high end of a range meets the '<' low start of a range at one coordinate; for source any abutting residue-bearing ends) by one feature covering exactly their residues; a second Repair that still changes something is judged the same way and must change nothing. Known findings are attributed per class by deviation models composed fewest-first (join members count as their elements; touching points/sites vanish; complemented members come back as fewer complement(join(...)) features over the same residues; classes that %s:%v conflates are one class) and for restoration per feature (multi-part original: residues kept; complemented range: exactly complement(join(last fragment,...,first fragment))); panics only at gts.Repair with slice-bounds/index and a join member in the table. non-trivial: restoration: a cut falls strictly inside a part of a feature; safety: some class has >=2 members; distinct: canonical case text. The table handed to Repair must read the same after the call. A bare feature (no qualifier) is the first feature of a fifth of the tables. gts repair on a stream of the intact record followed by the joined pieces prints the two outputs one after the other."
 }
 
 func (c12) RequiredBuckets(tier string) []string {
@@ -63,7 +63,7 @@ func (c12) RequiredBuckets(tier string) []string {
 		"safety:kind|range", "safety:kind|prange", "safety:kind|point", "safety:kind|site", "safety:kind|join", "safety:kind|order", "safety:kind|complement",
 		"corpus:phiX174",
 	}
-	return append(out, "cli:repair", "cli:repair source feature", "cli:repair cut between features", "cli:repair value-less unlisted qualifier", "cli:repair cache-on", "cli:repair stream ending in a record without features", "cli:repair table not in location order")
+	return append(out, "cli:repair", "cli:repair source feature", "cli:repair cut between features", "cli:repair value-less unlisted qualifier", "cli:repair cache-on", "cli:repair stream ending in a record without features", "cli:repair table not in location order", "cli:repair stream of an intact record and a cut one")
 }
 
 func c12Lbl(s string) gts.Props { return gts.Props{{"label", s}} }
